@@ -16,6 +16,8 @@ pub(super) struct State {
     last_send_access: Option<Access>,
     /// Last access that was a receive operation.
     last_recv_access: Option<Access>,
+    /// Last access that was a non-blocking receive operation.
+    last_try_recv_access: Option<Access>,
 
     /// A synchronization point for synchronizing the sending threads and the
     /// channel.
@@ -47,6 +49,8 @@ pub(super) enum Action {
     MsgSend,
     /// Receive a message
     MsgRecv,
+    /// Receive a message if there is one (`try_recv`)
+    MsgTryRecv,
 }
 
 impl Channel {
@@ -56,6 +60,7 @@ impl Channel {
                 msg_cnt: 0,
                 last_send_access: None,
                 last_recv_access: None,
+                last_try_recv_access: None,
                 sender_synchronize: Synchronize::new(),
                 receiver_synchronize: VecDeque::new(),
                 created: location,
@@ -100,9 +105,28 @@ impl Channel {
         })
     }
 
+    /// Non-blocking receive. Returns `false` if the channel is empty.
+    ///
+    /// This is a scheduling point that is dependent with sends, like `recv`, so
+    /// that both outcomes of a `try_recv` racing with a `send` are explored.
+    pub(crate) fn try_recv(&self, location: Location) -> bool {
+        self.state.branch_action(Action::MsgTryRecv, location);
+
+        if self.is_empty() {
+            return false;
+        }
+
+        self.take_message();
+        true
+    }
+
     pub(crate) fn recv(&self, location: Location) {
         self.state
             .branch_disable(Action::MsgRecv, self.is_empty(), location);
+        self.take_message();
+    }
+
+    fn take_message(&self) {
         super::execution(|execution| {
             let state = self.state.get_mut(&mut execution.objects);
             let thread_id = execution.threads.active_id();
@@ -162,10 +186,21 @@ impl State {
         }
     }
 
-    pub(super) fn last_dependent_access(&self, action: Action) -> Option<&Access> {
-        match action {
-            Action::MsgSend => self.last_send_access.as_ref(),
-            Action::MsgRecv => self.last_recv_access.as_ref(),
+    /// Calls `f` with every earlier access the given action is dependent with.
+    ///
+    /// Sends are ordered with each other (message order) and so are receives.
+    /// A send and a blocking receive commute: the receive is simply disabled
+    /// while the channel is empty. A `try_recv` is never disabled and its
+    /// result depends on its order with the sends.
+    pub(super) fn for_each_dependent_access(&self, action: Action, mut f: impl FnMut(&Access)) {
+        let (first, second) = match action {
+            Action::MsgSend => (&self.last_send_access, &self.last_try_recv_access),
+            Action::MsgRecv => (&self.last_recv_access, &None),
+            Action::MsgTryRecv => (&self.last_recv_access, &self.last_send_access),
+        };
+
+        for access in first.iter().chain(second.iter()) {
+            f(access);
         }
     }
 
@@ -173,6 +208,10 @@ impl State {
         match action {
             Action::MsgSend => Access::set_or_create(&mut self.last_send_access, path_id, version),
             Action::MsgRecv => Access::set_or_create(&mut self.last_recv_access, path_id, version),
+            Action::MsgTryRecv => {
+                Access::set_or_create(&mut self.last_recv_access, path_id, version);
+                Access::set_or_create(&mut self.last_try_recv_access, path_id, version);
+            }
         }
     }
 }
